@@ -454,3 +454,178 @@ Section IntSoft.
     rewrite (int_class_vn k _ _ Hk), (conforms_int_facets st k nil z Hb Hwf). reflexivity.
   Qed.
 End IntSoft.
+
+(* ------------------------------------------------------------------ strings *)
+Lemma text_eqb_true_eq a b : text_eqb a b = true -> a = b.
+Proof. revert b. induction a as [|x a IH]; destruct b as [|y b]; cbn; try discriminate; [reflexivity|].
+  intros H. apply andb_prop in H. destruct H as [H1 H2]. apply Z.eqb_eq in H1. subst. f_equal. apply IH. exact H2. Qed.
+Lemma text_eqb_same a : text_eqb a a = true.
+Proof. induction a as [|x a IH]; cbn; [reflexivity|]. rewrite Z.eqb_refl. exact IH. Qed.
+
+Lemma wf_str st uri :
+  st_base st = BStr uri -> wf_stype st = true ->
+  nonneg_opt (fa_min_len (st_fa st)) = true /\ nonneg_opt (fa_max_len (st_fa st)) = true
+  /\ fa_gt (st_fa st) = None /\ fa_ge (st_fa st) = None /\ fa_lt (st_fa st) = None /\ fa_le (st_fa st) = None
+  /\ (forall g, In g (fa_values (st_fa st)) -> in_space (BStr uri) g = true).
+Proof.
+  intros Hb Hwf. unfold wf_stype in Hwf. rewrite Hb in Hwf. split_all.
+  assert (G1 : fa_gt (st_fa st) = None) by (apply is_none_true; assumption).
+  assert (G2 : fa_ge (st_fa st) = None) by (apply is_none_true; assumption).
+  assert (G3 : fa_lt (st_fa st) = None) by (apply is_none_true; assumption).
+  assert (G4 : fa_le (st_fa st) = None) by (apply is_none_true; assumption).
+  repeat split; try assumption.
+  match goal with H : forallb _ (facet_values _) = true |- _ => rewrite forallb_forall in H; rename H into HF end.
+  intros g Hg. apply HF. unfold facet_values. rewrite !in_app_iff. auto 10.
+Qed.
+
+Lemma unpublished_str st uri :
+  st_base st = BStr uri -> published st = false ->
+  fa_values (st_fa st) = [] /\ fa_min_len (st_fa st) = None /\ fa_max_len (st_fa st) = None /\ fa_pattern (st_fa st) = None.
+Proof.
+  destruct st as [b f q]. cbn [st_base st_fa]. intros -> Hp. unfold published in Hp. cbn [st_base st_fa] in Hp.
+  assert (Hv : forall a, In a [A_values; A_min_len; A_max_len; A_pattern] -> attr_set f a = false).
+  { intros a Ha. rewrite <- not_true_iff_false. intros Hc.
+    assert (existsb (attr_set f) (is_default_attrs (BStr uri)) = true).
+    { apply existsb_exists. exists a. split; [|exact Hc]. destruct uri; exact Ha. }
+    congruence. }
+  repeat split.
+  - specialize (Hv A_values ltac:(cbn; tauto)). cbn in Hv. destruct (fa_values f); [reflexivity|discriminate].
+  - apply is_some_false. apply (Hv A_min_len). cbn; tauto.
+  - apply is_some_false. apply (Hv A_max_len). cbn; tauto.
+  - apply is_some_false. apply (Hv A_pattern). cbn; tauto.
+Qed.
+
+Section StrLeaf.
+  Variable pat : text -> option re.
+  Variable olex : okind -> text -> option Z.
+  Variable ord : okind -> text -> out Z.
+
+  Definition str_xbase (uri : bool) : xbase := if uri then XUri else XStr.
+
+  (** the declared constraints of a string class on a text *)
+  Definition str_spec (f : facets) (t : text) : bool :=
+    match fa_min_len f with Some a => a <=? len t | None => true end
+    && match fa_max_len f with Some b => len t <=? b | None => true end
+    && values_ok f (SText t)
+    && match fa_pattern f with Some (_, r) => re_match r t | None => true end.
+
+  Lemma len_nonneg (t : text) : 0 <= len t.
+  Proof. unfold len. lia. Qed.
+
+  Lemma unicode_facets_ok uri f t :
+    nonneg_opt (fa_min_len f) = true -> nonneg_opt (fa_max_len f) = true ->
+    (forall p r, fa_pattern f = Some (p, r) -> pat p = Some r) ->
+    (uri = true -> xs_trim t = t) ->
+    forallb (facet_ok pat olex (str_xbase uri) t (SText t)) (unicode_facets f)
+    = match fa_min_len f with Some a => a <=? len t | None => true end
+      && match fa_max_len f with Some b => len t <=? b | None => true end
+      && match fa_pattern f with Some (_, r) => re_match r t | None => true end.
+  Proof.
+    intros H1 H2 Hp Hu. unfold unicode_facets. rewrite forallb_app.
+    pose proof (len_nonneg t) as Hl.
+    assert (Hlex : xs_lexical (str_xbase uri) t = t) by (destruct uri; cbn; [apply Hu; reflexivity|reflexivity]).
+    f_equal.
+    - unfold unicode_length_tag, unicode_min_tag, unicode_max_tag.
+      destruct (fa_min_len f) as [a|], (fa_max_len f) as [b|]; cbn in H1, H2.
+      + destruct (a =? b) eqn:E; cbn [forallb facet_ok value_length]; rewrite ?nonneg_of_text_str_int by lia; lia.
+      + cbn [forallb facet_ok value_length]. rewrite nonneg_of_text_str_int by lia. lia.
+      + destruct (b =? 0) eqn:E; cbn [forallb facet_ok value_length]; rewrite ?nonneg_of_text_str_int by lia; lia.
+      + reflexivity.
+    - unfold unicode_pattern_tag. destruct (fa_pattern f) as [[p r]|] eqn:E; [|reflexivity].
+      cbn [forallb facet_ok]. rewrite (Hp p r eq_refl), Hlex, andb_true_r. reflexivity.
+  Qed.
+
+  Lemma str_lex_rt uri g : in_space (BStr uri) g = true -> lex_rt olex (BStr uri) g.
+  Proof.
+    destruct g as [|t| | |]; try discriminate. intros H. exists (SText t). split; [|apply sval_equiv_refl].
+    destruct uri; [|reflexivity].
+    unfold in_space in H. cbn [kind_ok andb] in H. apply text_eqb_true_eq in H.
+    cbn [xbase_of pr_text pr_leaf xs_value]. rewrite H. reflexivity.
+  Qed.
+
+  (** the published simple type of a customised string class accepts a text iff it satisfies
+      min_len / max_len / values / pattern (anyURI: for texts without blanks at the ends) *)
+  Lemma str_xsd_spec st uri t :
+    st_base st = BStr uri -> wf_stype st = true ->
+    (forall p r, fa_pattern (st_fa st) = Some (p, r) -> pat p = Some r) ->
+    (uri = true -> xs_trim t = t) ->
+    st_simple_ok pat olex st t = str_spec (st_fa st) t.
+  Proof.
+    intros Hb Hwf Hp Hu. destruct (wf_str st uri Hb Hwf) as (N1 & N2 & _ & _ & _ & _ & Hsp).
+    unfold st_simple_ok. rewrite Hb.
+    assert (Hx : xbase_of (BStr uri) = str_xbase uri) by (destruct uri; reflexivity).
+    rewrite Hx.
+    assert (Hv : xs_value olex (str_xbase uri) t = Some (SText t)).
+    { destruct uri; cbn; [rewrite (Hu eq_refl)|]; reflexivity. }
+    rewrite Hv. unfold st_facets, str_spec.
+    destruct (published st) eqn:Epub.
+    - unfold restriction_of. rewrite Hb. rewrite facets_ok_eq.
+      assert (Hw : writer_of (BStr uri) = WUnicode) by reflexivity. rewrite Hw.
+      rewrite filter_app, filter_enum_map_enum, forallb_app, forallb_enum_map.
+      assert (Hne : filter is_enum (unicode_facets (st_fa st)) = []).
+      { unfold unicode_facets, unicode_length_tag, unicode_min_tag, unicode_max_tag, unicode_pattern_tag.
+        destruct (fa_min_len (st_fa st)), (fa_max_len (st_fa st)), (fa_pattern (st_fa st)) as [[? ?]|];
+          repeat match goal with |- context [if ?c then _ else _] => destruct c end; reflexivity. }
+      rewrite Hne, app_nil_r. rewrite <- Hx.
+      rewrite (enum_values_ok olex (BStr uri) (st_fa st) (SText t) (SText t)
+                 (fun g Hg => str_lex_rt uri g (Hsp g Hg)) (sval_equiv_refl _)).
+      rewrite Hx, (unicode_facets_ok uri (st_fa st) t N1 N2 Hp Hu). cbn [andb]. btauto.
+    - destruct (unpublished_str st uri Hb Epub) as (G1 & G2 & G3 & G4).
+      unfold values_ok. rewrite G1, G2, G3, G4. reflexivity.
+  Qed.
+
+  (** soft validation of a string element / attribute = the same declared constraints *)
+  Lemma str_soft_spec st uri nil txt :
+    st_base st = BStr uri ->
+    soft_leaf ord st nil txt
+    = if str_spec (st_fa st) (match txt with None => [] | Some s => s end) then Ok tt else VFault.
+  Proof.
+    intros Hb. unfold soft_leaf, str_spec. rewrite Hb.
+    set (s := match txt with None => [] | Some s => s end).
+    destruct (match fa_min_len (st_fa st) with Some a => a <=? len s | None => true end),
+             (match fa_max_len (st_fa st) with Some b => len s <=? b | None => true end),
+             (values_ok (st_fa st) (SText s)),
+             (match fa_pattern (st_fa st) with Some (_, r) => re_match r s | None => true end); reflexivity.
+  Qed.
+End StrLeaf.
+
+(* ------------------------------------------------------------------ booleans *)
+Section BoolLeaf.
+  Variable pat : text -> option re.
+  Variable olex : okind -> text -> option Z.
+  Variable ord : okind -> text -> out Z.
+
+  Lemma wf_bool st : st_base st = BBool -> wf_stype st = true -> facet_values (st_fa st) = [] /\ st_facets st = [].
+  Proof.
+    intros Hb Hwf. unfold wf_stype in Hwf. rewrite Hb in Hwf. split_all.
+    assert (Hv : facet_values (st_fa st) = []).
+    { destruct (facet_values (st_fa st)); [reflexivity|]. exfalso.
+      repeat match goal with H : false = true |- _ => discriminate H | H : _ = true |- _ => try discriminate H end. }
+    split; [exact Hv|].
+    unfold st_facets, published. rewrite Hb. cbn [is_default_attrs].
+    unfold is_default_attrs_Boolean, is_default_attrs_SimpleModel. cbn [existsb attr_set].
+    assert (fa_values (st_fa st) = []) as ->.
+    { unfold facet_values in Hv. repeat (apply app_eq_nil in Hv; destruct Hv as [_ Hv]). exact Hv. }
+    reflexivity.
+  Qed.
+
+  Definition xs_bool_lit (s : text) : bool := is_some (xs_value olex XBool s).
+
+  Lemma bool_xsd_spec st s : st_base st = BBool -> wf_stype st = true -> st_simple_ok pat olex st s = xs_bool_lit s.
+  Proof.
+    intros Hb Hwf. destruct (wf_bool st Hb Hwf) as [_ Hf]. unfold st_simple_ok, xs_bool_lit. rewrite Hb, Hf.
+    cbn [xbase_of]. destruct (xs_value olex XBool s); reflexivity.
+  Qed.
+
+  Lemma bool_soft_spec st nil s : st_base st = BBool -> wf_stype st = true -> soft_leaf ord st nil (Some s) = Ok tt.
+  Proof.
+    intros Hb Hwf. destruct (wf_bool st Hb Hwf) as [Hv _]. unfold soft_leaf. rewrite Hb. unfold values_ok.
+    assert (fa_values (st_fa st) = []) as ->.
+    { unfold facet_values in Hv. repeat (apply app_eq_nil in Hv; destruct Hv as [_ Hv]). exact Hv. }
+    reflexivity.
+  Qed.
+
+  (** what boolean_to_unicode writes is an xs:boolean literal *)
+  Lemma bool_written_lit x : xs_bool_lit (if x : bool then boolean_true_text else boolean_false_text) = true.
+  Proof. destruct x; reflexivity. Qed.
+End BoolLeaf.
